@@ -5,6 +5,7 @@ mod c09;
 mod c16;
 mod dbg;
 mod hist;
+mod svcops;
 
 use vkit::Property;
 
